@@ -277,7 +277,7 @@ def gen_inputs(ctx):
                     out.append(("single", dict(processor=proc, N=N, gates=[C3.mk_gate(name, t, c, rng)])))
     # 2. random sequences mixing all kinds (three-qubit gates and far pairs weighted up)
     pool = ONE * 2 + TWO * 4 + THREE * 4 + ["GLOBALPHASE"]
-    for _ in range(ctx.n(160, 1500)):
+    for _ in range(ctx.n(160, 700)):
         proc = rng.choice(PROCESSORS)
         N = rng.choice(sizes[proc])
         gs = []
